@@ -203,6 +203,10 @@ def run(ctx):
                 for exc in ((excs + list(SHAPES)) if th else
                             ("Exception", "KeyboardInterrupt") + (tuple(SHAPES) if (env, N) == ("abs13", 1) or k <= 6 else ())):
                     ltasks.append(dict(cfg=cfg, k=k, exc=exc))
+    for env in ("abs13", "quad"):
+        cfg = dict(N=2, r=3.0, box="B1", env=env, density=3)
+        for k in range(2, (160 if th else 90) + 1):
+            ltasks.append(dict(cfg=cfg, k=k, exc="Exception"))
     lout = pmap(long_case, ltasks, chunksize=8)
     for t, msgs in zip(ltasks, lout):
         for m in msgs:
